@@ -53,17 +53,26 @@ class HarnessLimit(BaseException):
     """The harness cannot model this (e.g. init of an entangled qubit)."""
 
 
-NODE_IDS = {"alice": 0, "bob": 1, "charlie": 2}
+NODE_IDS = {"alice": 0, "bob": 1, "charlie": 2}                       # application (role) name -> id of the node it runs on
+NODE_NAMES = {"alice": "node-a", "bob": "node-b", "charlie": "node-c"}    # application name -> name of that node
+# The network also has nodes whose NAMES coincide with role names of applications running elsewhere (as in deployments where
+# roles are assigned to nodes freely): looking a role name up as a node name gives a different node.
+_NODES_BY_NAME = {"node-a": 0, "node-b": 1, "node-c": 2, "alice": 10, "bob": 11, "charlie": 12}
+
+
+def node_name_of(app_name: str) -> str:
+    return NODE_NAMES[app_name]
 
 
 class SimNetworkInfo(NetworkInfo):
     @classmethod
     def _get_node_id(cls, node_name: str) -> int:
-        return NODE_IDS[node_name]
+        return _NODES_BY_NAME[node_name]
 
     @classmethod
     def _get_node_name(cls, node_id: int) -> str:
-        return {v: k for k, v in NODE_IDS.items()}[node_id]
+        # an id no node has is answered, not refused: which name the SDK then reports is for the check to judge
+        return {v: k for k, v in _NODES_BY_NAME.items()}.get(int(node_id), f"<no node with id {int(node_id)}>")
 
     @classmethod
     def get_node_id_for_app(cls, app_name: str) -> int:
@@ -71,7 +80,7 @@ class SimNetworkInfo(NetworkInfo):
 
     @classmethod
     def get_node_name_for_app(cls, app_name: str) -> str:
-        return app_name
+        return NODE_NAMES[app_name]
 
 
 class ScriptedStack(BaseNetworkStack):
@@ -117,6 +126,7 @@ class SimExecutor(Executor):
         self.chooser: Callable[[float, float], int] = first_possible
         self.horizon = horizon
         self.steps = 0
+        self._just_reserved: set = set()      # physical qubits reserved and not yet touched by any instruction
         self.step_hook: Optional[Callable] = None     # called before each instruction (scheduling point)
         self.on_wait: Optional[Callable[[], None]] = None
         self.wait_polls = 0
@@ -149,15 +159,22 @@ class SimExecutor(Executor):
     def _do_single_qubit_instr(self, instr, subroutine_id, address):
         pos = self._pos(subroutine_id, address)
         if isinstance(instr, ins.core.InitInstruction):
+            fresh = pos in self._just_reserved
+            self._just_reserved.discard(pos)
             if not self.qs.is_product(pos):
-                # No program of any check initialises a qubit that is entangled (fresh qubits only), so this means that a
-                # physical qubit was handed out while another virtual qubit still uses it.  An ordinary exception: the
-                # executor reports it as a fault of this instruction and the checks judge it like any other fault.
-                raise RuntimeError("init of a physical qubit that is still entangled with a live qubit "
-                                   "(the physical qubit was handed out while in use)")
+                if fresh:
+                    # the first instruction on a physical qubit that was just reserved finds it entangled: the physical
+                    # qubit was handed out while another virtual qubit still uses it.  An ordinary exception: the executor
+                    # reports it as a fault of this instruction and the checks judge it like any other fault.
+                    raise RuntimeError("init of a physical qubit that is still entangled with a live qubit "
+                                       "(the physical qubit was handed out while in use)")
+                # re-initialisation of a qubit in use (Qubit.reset()): measured away, then |0>
+                p0, _p1 = self.qs.probabilities(pos)
+                self.qs.project(pos, 0 if p0 >= 0.5 else 1)
             self.qs.reset(pos)
             self.gate_trace.append(("init", address))
         else:
+            self._just_reserved.discard(pos)
             self.qs.apply(qsim.GATES1[instr.mnemonic], pos)
             self.gate_trace.append((instr.mnemonic, address))
         return None
@@ -165,6 +182,7 @@ class SimExecutor(Executor):
     def _do_single_qubit_rotation(self, instr, subroutine_id, address, angle):
         pos = self._pos(subroutine_id, address)
         axis = instr.mnemonic[-1]
+        self._just_reserved.discard(pos)
         self.qs.apply(qsim.rot(axis, angle), pos)
         self.gate_trace.append((instr.mnemonic, address, instr.angle_num.value, instr.angle_denom.value))
         return None
@@ -175,6 +193,7 @@ class SimExecutor(Executor):
         if p1 == p2:
             raise RuntimeError("controlled rotation on one qubit")
         axis = instr.mnemonic[-1]
+        self._just_reserved -= {p1, p2}
         self.qs.apply(qsim.crot(axis, angle), p1, p2)
         self.gate_trace.append((instr.mnemonic, address1, address2, instr.angle_num.value, instr.angle_denom.value))
         return None
@@ -185,11 +204,13 @@ class SimExecutor(Executor):
         if p1 == p2:
             raise RuntimeError("two-qubit gate on one qubit")
         mat = {"cnot": qsim.CNOT, "cphase": qsim.CPHASE, "mov": qsim.SWAP}[instr.mnemonic]
+        self._just_reserved -= {p1, p2}
         self.qs.apply(mat, p1, p2)
         self.gate_trace.append((instr.mnemonic, address1, address2))
         return None
 
     def _measure(self, pos) -> int:
+        self._just_reserved.discard(pos)
         p0, p1 = self.qs.probabilities(pos)
         out = self.chooser(p0, p1)
         if (p1 if out else p0) <= 1e-9:
@@ -230,6 +251,15 @@ class SimExecutor(Executor):
         if not self.qs.has(physical_address):
             self.qs.add(physical_address)
         return None
+
+    def _allocate_physical_qubit(self, *args, **kwargs):
+        # a qalloc (no physical qubit named by the caller, unlike the mapping of a delivered pair) yields a qubit whose first
+        # instruction must find it unentangled
+        given = kwargs.get("physical_address", args[2] if len(args) > 2 else None)
+        out = super()._allocate_physical_qubit(*args, **kwargs)
+        if given is None:
+            self._just_reserved.add(out)
+        return out
 
     def _clear_phys_qubit_in_memory(self, physical_address):
         if self.qs.has(physical_address):
